@@ -5,7 +5,7 @@
    the relativization choices). *)
 From DV Require Import Base.Prelude Model.NameM Model.TokM Model.RdTextM.
 From DV Require Import Proofs.NameValid Proofs.NameText Proofs.TokEsc Proofs.TokTxt Proofs.TokWords
-     Proofs.TokDec Proofs.TokHex Proofs.TokShape Proofs.TokGeneric Proofs.TokUtf8 Proofs.RdTextName Proofs.RdTextAddr Proofs.RdTextBitmap Proofs.RdTextTypes.
+     Proofs.TokDec Proofs.TokHex Proofs.TokShape Proofs.TokGeneric Proofs.TokUtf8 Proofs.RdTextName Proofs.RdTextAddr Proofs.RdTextBitmap Proofs.RdTextTypes Proofs.RdTextB32.
 Open Scope Z_scope.
 
 Definition is_rest (f : tfield) : bool :=
@@ -35,6 +35,7 @@ Definition val_ok (f : tfield) (v : tval) : Prop :=
   | FAlg, VInt z => 0 <= z <= 255
   | FTag, VBytes b => b <> [] /\ zlen b <= 255 /\ forallb is_alnum b = true
   | FBitmap, VWindows ws => canon_from (-1) ws /\ no_type0 ws
+  | FB32, VBytes b => all_bytes b = true /\ b <> [] /\ zlen b <= 255
   | _, _ => False
   end.
 
@@ -173,7 +174,7 @@ Lemma field_ok sty c f v ftext v' R q bl :
         (is_rest f = true -> exists te, ungot st_end = Some te /\ is_eol_or_eof te = true).
 Proof.
   intros (Hhs & Hbs & HO) Hv Hp He Hbl HR1 HR2.
-  destruct f as [maxv| |tokmax ctormax ne| | |sc| |v6| | | |]; destruct v as [z|b|n|l|ws]; cbn [val_ok] in Hv; try contradiction;
+  destruct f as [maxv| |tokmax ctormax ne| | |sc| |v6| | | | |]; destruct v as [z|b|n|l|ws]; cbn [val_ok] in Hv; try contradiction;
     cbn [print_field] in Hp; cbn [expect] in He; cbn [is_rest] in HR1, HR2.
   - (* FDec *)
     inversion Hp; subst ftext. inversion He; subst v'. specialize (HR1 eq_refl).
@@ -396,6 +397,20 @@ Proof.
       rewrite E2. cbn [bind rev app fst snd].
       change (word_tok n1 :: map word_tok names') with (map word_tok (n1 :: names')). rewrite Htt. cbn [bind].
       rewrite Hrt. reflexivity.
+  - (* FB32 *)
+    destruct Hv as (Hb & Hne & Hl). inversion Hp; subst ftext. inversion He; subst v'. specialize (HR1 eq_refl).
+    destruct (b32hex_word b Hb Hne) as [Hs Hn0].
+    exists (mkTok tIDENT (b32hex_encode b) (has_bs (b32hex_encode b)) None), (stq false R).
+    split; [apply get0_word_q; auto using units_safe|]. split; [reflexivity|]. split.
+    { unfold tok_plain, is_identifier. cbn [ttype tvalue]. rewrite safe_word_not_hash by exact Hs. repeat split; reflexivity. }
+    split; [apply stq_len_word|].
+    intros stX HX _. exists (VBytes b), (stq false R).
+    split; [|split; [|split; [intros _; exists false; reflexivity|discriminate]]].
+    + cbn [parse_field]. unfold get_string, get_unescaped. rewrite HX. cbn [bind fst snd]. unfold unescape. cbn [tesc].
+      rewrite has_bs_safe by exact Hs. cbn [negb bind fst snd]. unfold as_string, is_identifier, is_quoted. cbn [ttype tvalue].
+      change (tIDENT =? tIDENT) with true. change (0 =? 0) with true. cbn [orb negb andb bind fst snd].
+      rewrite b32hex_roundtrip by exact Hb. reflexivity.
+    + cbn [ctor_field]. replace (zlen b >? 255) with false by lia. reflexivity.
 Qed.
 
 (* ---------- the whole field list ---------- *)
